@@ -10,6 +10,7 @@ import (
 	"bufio"
 	"encoding/base64"
 	"fmt"
+	"io"
 	"net"
 	"os"
 	"strings"
@@ -58,6 +59,9 @@ type Broker struct {
 	node    string
 	store   string
 	Clients map[string]*Client
+	// Buffered: connections attached from now on use buffered in-memory pipes (writes never block, as on
+	// a TCP socket with free buffer space) instead of the synchronous net.Pipe
+	Buffered bool
 }
 
 // New starts a broker. storeName "" = in-memory history.
@@ -164,11 +168,99 @@ type Client struct {
 	got  []string
 	dead bool
 	n    int
+	gate sync.RWMutex // held for writing while the client does not read from its socket (slow consumer)
+}
+
+// Hold stops the client from reading its socket (the broker's writes to it block); Release resumes.
+func (c *Client) Hold()    { c.gate.Lock() }
+func (c *Client) Release() { c.gate.Unlock() }
+
+// CountPrefix is the number of packets received so far (and not yet taken) that start with prefix.
+func (c *Client) CountPrefix(prefix string) int {
+	c.mu.Lock()
+	defer c.mu.Unlock()
+	n := 0
+	for _, g := range c.got {
+		if strings.HasPrefix(g, prefix) || g == "closed" {
+			n++
+		}
+	}
+	return n
 }
 
 // Attach connects a new client.
+// bufHalf is one direction of a buffered in-memory connection: writes never block (like a TCP socket
+// with room in its send buffer), reads block until data arrives or the connection is closed.
+type bufHalf struct {
+	mu     sync.Mutex
+	cond   *sync.Cond
+	data   []byte
+	closed bool
+}
+
+func newBufHalf() *bufHalf { h := &bufHalf{}; h.cond = sync.NewCond(&h.mu); return h }
+
+type bufConn struct {
+	rd, wr *bufHalf
+}
+
+func (c *bufConn) Read(p []byte) (int, error) {
+	c.rd.mu.Lock()
+	defer c.rd.mu.Unlock()
+	for len(c.rd.data) == 0 {
+		if c.rd.closed {
+			return 0, io.EOF
+		}
+		c.rd.cond.Wait()
+	}
+	n := copy(p, c.rd.data)
+	c.rd.data = c.rd.data[n:]
+	return n, nil
+}
+
+func (c *bufConn) Write(p []byte) (int, error) {
+	c.wr.mu.Lock()
+	defer c.wr.mu.Unlock()
+	if c.wr.closed {
+		return 0, io.ErrClosedPipe
+	}
+	c.wr.data = append(c.wr.data, p...)
+	c.wr.cond.Broadcast()
+	return len(p), nil
+}
+
+func (c *bufConn) Close() error {
+	for _, h := range []*bufHalf{c.rd, c.wr} {
+		h.mu.Lock()
+		h.closed = true
+		h.cond.Broadcast()
+		h.mu.Unlock()
+	}
+	return nil
+}
+
+type bufAddr struct{}
+
+func (bufAddr) Network() string { return "verif" }
+func (bufAddr) String() string  { return "verif" }
+
+func (c *bufConn) LocalAddr() net.Addr                { return bufAddr{} }
+func (c *bufConn) RemoteAddr() net.Addr               { return bufAddr{} }
+func (c *bufConn) SetDeadline(t time.Time) error      { return nil }
+func (c *bufConn) SetReadDeadline(t time.Time) error  { return nil }
+func (c *bufConn) SetWriteDeadline(t time.Time) error { return nil }
+
+// bufPipe is net.Pipe with unbounded buffers in both directions.
+func bufPipe() (net.Conn, net.Conn) {
+	a, b := newBufHalf(), newBufHalf()
+	return &bufConn{rd: a, wr: b}, &bufConn{rd: b, wr: a}
+}
+
 func (b *Broker) Attach(name string) *Client {
 	srv, cli := net.Pipe()
+	if b.Buffered {
+		srv, cli = bufPipe()
+	}
 	t := &trackedConn{Conn: srv, closed: make(chan struct{})}
 	c := &Client{Name: name, conn: cli, srv: t}
 	b.Clients[name] = c
@@ -180,6 +272,8 @@ func (b *Broker) Attach(name string) *Client {
 func (c *Client) reader() {
 	r := bufio.NewReaderSize(c.conn, 65536)
 	for {
+		c.gate.RLock()
+		c.gate.RUnlock()
 		m, err := mqtt.DecodePacket(r, 1<<20)
 		c.mu.Lock()
 		if err != nil {
@@ -231,6 +325,9 @@ func (c *Client) SendRaw(b []byte) error {
 // CloseSocket closes the client's end and waits until the broker has torn the connection down.
 // FailWrites makes every further write of the broker to this connection fail while the
 // connection stays open and subscribed (its read loop keeps blocking on the pipe).
+// RawConn is the client end of the pipe (for writes without a deadline).
+func (c *Client) RawConn() net.Conn { return c.conn }
+
 func (c *Client) FailWrites() { atomic.StoreInt32(&c.srv.deaf, 1) }
 
 func (c *Client) CloseSocket() {
